@@ -2,4 +2,12 @@
 import PdsVerif.DriverLoop
 import PdsVerif.RealNum
 import PdsVerif.Model.ScalesDrv
+import PdsVerif.Model.StftDrv
+import PdsVerif.Props.C01
+import PdsVerif.Props.C02
+import PdsVerif.Props.C04
+import PdsVerif.Props.C08
+import PdsVerif.Props.C14
+import PdsVerif.Props.C18
 import PdsVerif.Props.C19
+import PdsVerif.Props.C20
